@@ -61,6 +61,47 @@ Section Sel.
       end.
   Qed.
 
+  (* ---------------- the error-report probe ---------------- *)
+  Lemma upgrade_loop_none_indep n : forall s s' v, upgrade_loop T n s v = None -> upgrade_loop T n s' v = None.
+  Proof.
+    induction n as [|n IH]; intros s s' v; simpl; [discriminate|].
+    unfold upgrade_step. destruct (lookup_upgrade v (t_upgrades T)) as [u|]; [|reflexivity]. apply IH.
+  Qed.
+
+  Lemma equalize_none_indep f1 f2 g1 g2 v1 v2 : equalize T f1 f2 v1 v2 = None -> equalize T g1 g2 v1 v2 = None.
+  Proof.
+    unfold equalize, upgrade_to.
+    destruct (upgrade_loop T (N.to_nat (v2 - v1)) f1 v1) eqn:A.
+    - destruct (upgrade_loop T (N.to_nat (v1 - v2)) f2 v2) eqn:B; [discriminate|].
+      intros _. rewrite (upgrade_loop_none_indep _ _ g2 _ B). now destruct (upgrade_loop T (N.to_nat (v2 - v1)) g1 v1).
+    - intros _. now rewrite (upgrade_loop_none_indep _ _ g1 _ A).
+  Qed.
+
+  Lemma pos_elements_nonempty p i : pos_elements p i <> [].
+  Proof. revert i. induction p; intros i; simpl; auto; discriminate. Qed.
+
+  Lemma existsb_const {A} (b : bool) (l : list A) : existsb (fun _ => b) l = negb (match l with [] => true | _ => false end) && b.
+  Proof. induction l as [|x l IH]; simpl; [reflexivity|]. rewrite IH. destruct b, l; reflexivity. Qed.
+
+  Lemma existsb_ext' {A} (f g : A -> bool) l : (forall x, f x = g x) -> existsb f l = existsb g l.
+  Proof. intros H. induction l as [|x l IH]; simpl; [reflexivity|]. now rewrite H, IH. Qed.
+
+  Lemma report_raises_equiv e r : report_raises_spec T e r = report_raises T e r.
+  Proof.
+    unfold report_raises_spec, report_raises. rewrite <- andb_assoc. f_equal.
+    set (P := match equalize T 0%N 0%N (version T (r_kind r)) (version T (e_supported e)) with None => true | Some _ => false end).
+    assert (E : forall f, match supports T e {| k_feats := mask_of [f]; k_ver := Some (version T (r_kind r)) |} with
+                          | Ok _ => false | _ => true end = P).
+    { intros f. unfold supports, le, P. cbn [version k_ver k_feats].
+      destruct (equalize T (mask_of [f]) (k_feats (e_supported e)) (version T (r_kind r)) (version T (e_supported e))) as [[[a b] v]|] eqn:Q.
+      - destruct (equalize T 0%N 0%N (version T (r_kind r)) (version T (e_supported e))) eqn:Q'; [reflexivity|].
+        rewrite (equalize_none_indep _ _ (mask_of [f]) (k_feats (e_supported e)) _ _ Q') in Q. discriminate.
+      - now rewrite (equalize_none_indep _ _ 0%N 0%N _ _ Q). }
+    rewrite (existsb_ext' _ (fun _ => P)) by (intros; apply E). rewrite existsb_const. f_equal.
+    destruct (k_feats (r_kind r)) as [|p]; simpl; [reflexivity|].
+    destruct (pos_elements p 0) eqn:Z; [exfalso; eapply pos_elements_nonempty; eauto|reflexivity].
+  Qed.
+
   (* ---------------- _get_engine_class ---------------- *)
   Lemma first_found reg prefs r n e : first_satisfying T reg prefs r = Found n e ->
     exists pre post, prefs = pre ++ n :: post
